@@ -187,7 +187,27 @@ structure Cfg where
   /-- `PatchExpired` hands every selected treasure to `ReindexExpiration` (false: only those it did not
       patch, trusting `SaveFunction` to have re-filed the patched ones) -/
   patchExpiredReindexesAll : Bool
+  /-- a window bound that `time.Time.UnixNano` cannot represent (before 1677-09-21 / after 2262-04-11)
+      is recognised: a lower bound below / an upper bound above the range is dropped, a window that lies
+      wholly outside is empty (false: the bound is converted anyway and wraps around) -/
+  windowBoundsChecked : Bool
   deriving DecidableEq, Repr
+
+def minInt64 : Int := -9223372036854775808
+def maxInt64 : Int := 9223372036854775807
+
+/-- what `UnixNano()` returns for an instant `x` nanoseconds from the epoch: int64 arithmetic wraps -/
+def wrap64 (x : Int) : Int := (x + 9223372036854775808) % 18446744073709551616 - 9223372036854775808
+
+/-- the window as the index code sees it: `none` = "nothing can be in it", else the two optional bounds
+    in int64 nanoseconds -/
+def effWindow (cfg : Cfg) (fromT toT : Option Int) : Option (Option Int × Option Int) :=
+  if cfg.windowBoundsChecked then
+    if (match fromT with | some f => decide (f > maxInt64) | none => false) ||
+       (match toT with | some t => decide (t < minInt64) | none => false) then none
+    else some ((match fromT with | some f => if f < minInt64 then none else some f | none => none),
+               (match toT with | some t => if t > maxInt64 then none else some t | none => none))
+  else some (fromT.map wrap64, toT.map wrap64)
 
 def test (c : Cmp) (x bound : Int) : Bool :=
   match c with
@@ -460,7 +480,7 @@ def mergeRec (cfg : Cfg) (old : Option Rec) (rq : SetReq) : Rec :=
   match old with
   | none =>
     { key := rq.key, ct := rq.ct, val := (if rq.ct == .void then 0 else rq.val),
-      created := rq.created, updated := rq.updated, expire := (if rq.clearExpire then 0 else rq.expire),
+      created := wrap64 rq.created, updated := wrap64 rq.updated, expire := (if rq.clearExpire then 0 else wrap64 rq.expire),
       expFlag := rq.expire != 0 || rq.clearExpire, contFlag := true }
   | some o =>
     -- `SetContentVoid` on an object that already has non-void content: replaces it, or (older code)
@@ -469,9 +489,9 @@ def mergeRec (cfg : Cfg) (old : Option Rec) (rq : SetReq) : Rec :=
     { key := o.key,
       ct := if keep then o.ct else rq.ct,
       val := if keep then o.val else (if rq.ct == .void then 0 else rq.val),
-      created := if rq.created != 0 then rq.created else o.created,
-      updated := if rq.updated != 0 then rq.updated else o.updated,
-      expire := if rq.clearExpire then 0 else if rq.expire != 0 then rq.expire else o.expire,
+      created := if rq.created != 0 then wrap64 rq.created else o.created,
+      updated := if rq.updated != 0 then wrap64 rq.updated else o.updated,
+      expire := if rq.clearExpire then 0 else if rq.expire != 0 then wrap64 rq.expire else o.expire,
       expFlag := (cfg.flagsSticky && o.expFlag) || rq.expire != 0 || rq.clearExpire,
       -- the setters raise `contentChanged` only when the value really differs
       contFlag := (cfg.flagsSticky && o.contFlag) ||
@@ -562,6 +582,16 @@ def stepBuild (cfg : Cfg) (st : St) (q : Query) : St :=
   let ps := phys cfg q.slot
   { st with pairs := setPair st.pairs ps ((st.pairs ps).build cfg q.slot st.store) }
 
+/-- `findIn…Beacon` → `GetManyFromOrderPosition` on the ordered slice `l` with effective limit `lim` -/
+def readList (cfg : Cfg) (q : Query) (l : List Rec) (lim : Nat) : List Rec :=
+  if q.slot.isTime then
+    (match effWindow cfg q.fromT q.toT with
+     | some (f, t) => getMany cfg l (ts q.slot) q.asc q.from_ lim f t
+     | none => [])
+  else
+    -- findInKeyBeacon / findInValueBeacon do not pass the time window on
+    getMany cfg l (ts q.slot) q.asc q.from_ lim none none
+
 /-- `GetTreasuresByBeacon` after the build: `none` = "Swamp does not exist" (no live record) -/
 def answer (cfg : Cfg) (st : St) (q : Query) : Option (List Rec) :=
   if st.store.isEmpty then none else
@@ -570,11 +600,7 @@ def answer (cfg : Cfg) (st : St) (q : Query) : Option (List Rec) :=
   let l := if q.asc then p.asc else p.desc
   -- `if limit == 0 { limit = int32(s.beaconKey.Count()) }`
   let lim := if q.limit = 0 then st.store.length else q.limit
-  if q.slot.isTime then
-    some (getMany cfg l (ts q.slot) q.asc q.from_ lim q.fromT q.toT)
-  else
-    -- findInKeyBeacon / findInValueBeacon do not pass the time window on
-    some (getMany cfg l (ts q.slot) q.asc q.from_ lim none none)
+  some (readList cfg q l lim)
 
 def expireAll : Query := { slot := .expire, asc := true, from_ := 0, limit := 0, fromT := none, toT := none }
 
@@ -646,12 +672,20 @@ def inTimeRange (x : Int) (fromT toT : Option Int) : Bool :=
   (match fromT with | some f => decide (x ≥ f) | none => true) &&
   (match toT with | some t => decide (x < t) | none => true)
 
+/-- the shift predicate's window over the index slice (time indexes only) -/
+def windowed (cfg : Cfg) (q : Query) (l : List Rec) : List Rec :=
+  if q.slot.isTime then
+    (match effWindow cfg q.fromT q.toT with
+     | some (f, t) => l.filter (fun r => inTimeRange (ts q.slot r) f t)
+     | none => [])
+  else l
+
 /-- what `CloneAndDeleteMatchingTreasures` returns: the first `limit` records (0: all) of the built
     index, in its order, that lie in the window (time indexes only) -/
 def matchList (cfg : Cfg) (st : St) (q : Query) : List Rec :=
   let p := (stepBuild cfg st q).pairs (phys cfg q.slot)
   let l := if q.asc then p.asc else p.desc
-  let m := if q.slot.isTime then l.filter (fun r => inTimeRange (ts q.slot r) q.fromT q.toT) else l
+  let m := windowed cfg q l
   if q.limit = 0 then m else m.take q.limit
 
 /-- …and deletes -/
